@@ -226,3 +226,109 @@ Qed.
 
 Lemma typed_value_wf n j r : reenc_type n j = Ok r -> wf (content_of r).
 Proof. unfold reenc_type. apply (typed_output_wellformed go_env go_env_wf). reflexivity. Qed.
+
+(* ------------------------------------------------------------------------------------------ *)
+(* 3: the digest theorems over typed documents - the `wf` premises are discharged              *)
+(* ------------------------------------------------------------------------------------------ *)
+Section TypedDigest.
+  Variable rest : Type.
+  Variable canon : content -> bytes.
+  Variable H : bytes -> bytes.
+  Variable structural : V.envelope content rest -> bool.
+  Variable E : env.
+  Hypothesis WE : env_wfb E = true.
+  Variable t : ty.
+  Hypothesis WT : ty_wfb t = true.
+
+  Notation validate := (V.validate content rest canon H structural).
+
+  (* the envelope holds the typed document r; its document is replaced by the typed document r' *)
+  Lemma typed_reencoding_preserves_validity :
+    (forall v, wf v -> canon v = canon (norm v)) ->
+    forall fuel fuel' j j' r r' (e : V.envelope content rest),
+      reenc E fuel t j = Ok r -> reenc E fuel' t j' = Ok r' -> V.e_doc e = content_of r ->
+      norm (content_of r') = norm (content_of r) ->
+      structural (V.with_doc e (content_of r')) = structural e ->
+      validate e = V.Valid -> validate (V.with_doc e (content_of r')) = V.Valid.
+  Proof.
+    intros CN fuel fuel' j j' r r' e R R' D N. apply (VP.reencoding_preserves_validity rest canon H structural CN).
+    - rewrite D. apply (typed_output_wellformed E WE _ _ _ _ WT R).
+    - apply (typed_output_wellformed E WE _ _ _ _ WT R').
+    - rewrite D. exact N.
+  Qed.
+
+  Lemma typed_digest_tamper_evident :
+    (forall v1 v2, wf v1 -> wf v2 -> canon v1 = canon v2 -> norm v1 = norm v2) ->
+    forall fuel fuel' j j' r r' (e : V.envelope content rest),
+      reenc E fuel t j = Ok r -> reenc E fuel' t j' = Ok r' -> V.e_doc e = content_of r ->
+      validate e = V.Valid -> validate (V.with_doc e (content_of r')) = V.Valid ->
+      norm (content_of r') = norm (content_of r) \/
+      (canon (content_of r) <> canon (content_of r') /\ H (canon (content_of r)) = H (canon (content_of r'))).
+  Proof.
+    intros CI fuel fuel' j j' r r' e R R' D. rewrite <- D.
+    apply (VP.digest_tamper_evident rest canon H structural CI).
+    - rewrite D. apply (typed_output_wellformed E WE _ _ _ _ WT R).
+    - apply (typed_output_wellformed E WE _ _ _ _ WT R').
+  Qed.
+
+  Lemma typed_tampered_is_rejected :
+    (forall v1 v2, wf v1 -> wf v2 -> canon v1 = canon v2 -> norm v1 = norm v2) ->
+    forall fuel fuel' j j' r r' (e : V.envelope content rest),
+      reenc E fuel t j = Ok r -> reenc E fuel' t j' = Ok r' -> V.e_doc e = content_of r ->
+      validate e = V.Valid ->
+      norm (content_of r') <> norm (content_of r) ->
+      H (canon (content_of r)) <> H (canon (content_of r')) ->
+      validate (V.with_doc e (content_of r')) <> V.Valid /\
+      (structural (V.with_doc e (content_of r')) = true ->
+       validate (V.with_doc e (content_of r')) = V.ErrDigest).
+  Proof.
+    intros CI fuel fuel' j j' r r' e R R' D. rewrite <- D.
+    apply (VP.tampered_is_rejected rest canon H structural CI).
+    - rewrite D. apply (typed_output_wellformed E WE _ _ _ _ WT R).
+    - apply (typed_output_wellformed E WE _ _ _ _ WT R').
+  Qed.
+End TypedDigest.
+
+(* the same over the real canonical form, for documents of a registered schema: no premise on the
+   canonicaliser; what is left is the domain of real_canon (clean UTF-8, canonical number texts) *)
+Section TypedReal.
+  Variable rest : Type.
+  Variable H : bytes -> bytes.
+  Variable structural : V.envelope content rest -> bool.
+  Notation validate := (V.validate content rest L.real_canon H structural).
+
+  Lemma typed_reencoding_preserves_validity_real id j j' r r' (e : V.envelope content rest) :
+    reenc_schema id j = Ok r -> reenc_schema id j' = Ok r' -> V.e_doc e = content_of r ->
+    L.in_domain (content_of r) = true -> L.in_domain (content_of r') = true ->
+    norm (content_of r') = norm (content_of r) ->
+    structural (V.with_doc e (content_of r')) = structural e ->
+    validate e = V.Valid -> validate (V.with_doc e (content_of r')) = V.Valid.
+  Proof.
+    intros _ _ D I I' N. apply (LP.reencoding_preserves_validity_real rest H structural); rewrite ?D; assumption.
+  Qed.
+
+  Lemma typed_digest_tamper_evident_real id j j' r r' (e : V.envelope content rest) :
+    reenc_schema id j = Ok r -> reenc_schema id j' = Ok r' -> V.e_doc e = content_of r ->
+    L.in_domain (content_of r) = true -> L.in_domain (content_of r') = true ->
+    validate e = V.Valid -> validate (V.with_doc e (content_of r')) = V.Valid ->
+    norm (content_of r') = norm (content_of r) \/
+    (L.real_canon (content_of r) <> L.real_canon (content_of r') /\
+     H (L.real_canon (content_of r)) = H (L.real_canon (content_of r'))).
+  Proof.
+    intros _ _ D I I'. rewrite <- D.
+    apply (LP.digest_tamper_evident_real rest H structural); rewrite ?D; assumption.
+  Qed.
+
+  Lemma typed_tampered_is_rejected_real id j j' r r' (e : V.envelope content rest) :
+    reenc_schema id j = Ok r -> reenc_schema id j' = Ok r' -> V.e_doc e = content_of r ->
+    L.in_domain (content_of r) = true -> L.in_domain (content_of r') = true ->
+    validate e = V.Valid ->
+    norm (content_of r') <> norm (content_of r) ->
+    H (L.real_canon (content_of r)) <> H (L.real_canon (content_of r')) ->
+    validate (V.with_doc e (content_of r')) <> V.Valid /\
+    (structural (V.with_doc e (content_of r')) = true ->
+     validate (V.with_doc e (content_of r')) = V.ErrDigest).
+  Proof.
+    intros _ _ D I I'. rewrite <- D. apply (LP.tampered_is_rejected_real rest H structural); rewrite ?D; assumption.
+  Qed.
+End TypedReal.
